@@ -1,6 +1,7 @@
 import DW.Props.C01
 import DW.Props.C09
 import DW.Props.C18
+import DW.Props.C06
 
 /-!
 # C02 — every accepted item yields compiling impls of exactly the requested traits
